@@ -9,8 +9,9 @@ import subprocess
 import sys
 
 name, prop, checks = sys.argv[1], sys.argv[2], sys.argv[3].split(",")
-src = "/tmp/seed/%s.demo" % name
-dst = "/verif/seeded/%s" % name
+root = os.environ.get("SEED_ROOT", "/tmp/seed")
+src = "%s/%s.demo" % (root, name)
+dst = "/verif/seeded/%s%s" % (name, os.environ.get("SEED_SUFFIX", ""))
 os.makedirs(dst, exist_ok=True)
 shutil.copy(os.path.join(src, "patch.diff"), os.path.join(dst, "patch.diff"))
 demo = os.path.join(dst, "demo")
